@@ -92,7 +92,7 @@ func ruleBoundaryMono() *Rule {
 	return &Rule{
 		ID:    id,
 		Text:  "In takeSnapshot every store to Raft.lastIncludedIndex writes a value V on a path on which, in the same critical section, V > r.lastIncludedIndex has been established (the arm of a comparison of that very value with the boundary).",
-		Floor: 1,
+		Floor: 2,
 		Run: func(p *Program) []Obligation {
 			fn := p.Func("(*Raft).takeSnapshot")
 			fld := p.Field("Raft.lastIncludedIndex")
@@ -174,6 +174,65 @@ func ruleBoundaryMono() *Rule {
 			}
 			if len(out) == 0 {
 				return missing(id, "a store to Raft.lastIncludedIndex in takeSnapshot")
+			}
+			// (D52) the same for PUBLISHING the file: a local snapshot that an installation has overtaken while the state
+			// machine was writing it must not be closed (renamed into place) at all — its directory, created later than
+			// the installed one, would be picked as the most recent snapshot although the log no longer connects to it
+			var label string
+			var closes []ssa.Instruction
+			for _, b := range fn.Blocks {
+				for _, in := range b.Instrs {
+					if iface, m, c := invokeOf(in); iface == "SnapshotStorage" && m == "NewSnapshotFile" && len(c.Args) > 0 {
+						label = strings.TrimPrefix(p.Canon(fr, c.Args[0]).S, "@")
+					}
+					if iface, m, _ := invokeOf(in); iface == "SnapshotFile" && m == "Close" {
+						closes = append(closes, in)
+					}
+				}
+			}
+			if label == "" || len(closes) == 0 {
+				return append(out, missing(id, "SnapshotStorage.NewSnapshotFile / SnapshotFile.Close in takeSnapshot")...)
+			}
+			for i, cl := range closes {
+				ob := Obligation{Rule: id, Construct: "publication (Close) of the local snapshot in (*Raft).takeSnapshot" + ordSuffix(i+1), Pos: p.InstrPos(cl)}
+				guarded := false
+				for _, bb := range fn.Blocks {
+					iff, ok := bb.Instrs[len(bb.Instrs)-1].(*ssa.If)
+					if !ok {
+						continue
+					}
+					bo, ok := iff.Cond.(*ssa.BinOp)
+					if !ok {
+						continue
+					}
+					x := strings.TrimPrefix(p.Canon(fr, bo.X).S, "@")
+					y := strings.TrimPrefix(p.Canon(fr, bo.Y).S, "@")
+					arm := -1
+					switch {
+					case x == label && y == "r.lastIncludedIndex" && bo.Op == token.LEQ:
+						arm = 1
+					case x == label && y == "r.lastIncludedIndex" && bo.Op == token.GTR:
+						arm = 0
+					case y == label && x == "r.lastIncludedIndex" && bo.Op == token.GEQ:
+						arm = 1
+					case y == label && x == "r.lastIncludedIndex" && bo.Op == token.LSS:
+						arm = 0
+					}
+					if arm < 0 {
+						continue
+					}
+					if len(bb.Succs[arm].Preds) == 1 && bb.Succs[arm].Dominates(cl.Block()) && !lockBetween(bb, cl.Block()) {
+						guarded = true
+					}
+				}
+				if guarded {
+					ob.Verdict, ob.Detail = Discharged, "the file is published only where "+label+" > r.lastIncludedIndex was established in the same critical section"
+				} else {
+					ob.Verdict = Violated
+					ob.Detail = "the local snapshot is published without a comparison of its label (" + label + ") with r.lastIncludedIndex since the mutex was re-acquired: when a snapshot with a greater index was installed while the state machine was writing this one, " +
+						"the obsolete file is renamed into place all the same; created later, it sorts after the installed one, SnapshotFile() returns it, and restore() cannot connect the compacted log to it — the node cannot be started again"
+				}
+				out = append(out, ob)
 			}
 			return out
 		},
